@@ -26,7 +26,7 @@ theorem splitLine_std (n : Nat) (s : St) (ws0 : List Char) (is : List Item)
   simp only [splitLine, hc, hr, Bool.false_eq_true, ↓reduceIte, hskip, hpp, Bool.false_and]
   simp only [ite_self] at hps ⊢
   rw [hps]
-  simp
+  simp [hc, hr]
 
 theorem splitLine_pp (n : Nat) (s : St) (ws0 ws1 key ws2 : List Char) (is : List Item)
     (hc : s.cOpen = false) (hr : s.rawOpen = false) (hok : (Line.pp ws0 ws1 key ws2 is).OK) :
@@ -61,26 +61,24 @@ theorem splitLine_pp (n : Nat) (s : St) (ws0 ws1 key ws2 : List Char) (is : List
       simp [isSepOrSpace, this]
   have htw := takeWord_append key (ws2 ++ renderItems is) hkch hafter
   have hcont : ppKeywords.contains key = true := by simpa using hkey
-  cases hk : key ++ (ws2 ++ renderItems is) with
-  | nil =>
-    have : key = [] := (List.append_eq_nil_iff.mp hk).1
-    exact absurd this hkne
-  | cons k0 krest =>
-    have hkempty : key.isEmpty = false := by
-      cases key with
-      | nil => exact absurd rfl hkne
-      | cons a b => rfl
-    have hps := parseStandardLine_items n
-      (tok1 (tok1 s n (0 + ws0.length) ['#'] .preproc) n (0 + ws0.length + 1 + ws1.length) key .preproc)
-      (0 + ws0.length + 1 + ws1.length + key.length) ' ' ws2 is hws2 hitems
-    rw [hk] at hskip1 htw
-    simp only [Line.render, splitLine, hc, hr, Bool.false_eq_true, ↓reduceIte, hskip0, peek, List.headD_cons,
-      List.isEmpty_cons, Bool.not_false, Bool.and_true, dflt, decide_true, parsePreprocessorDirective,
-      List.tail_cons, hskip1, htw, hkempty, hcont, Bool.not_true]
-    rw [← dflt] at *
-    simp only [dflt] at hps ⊢
-    rw [hps]
-    simp [tok1, push, Line.toks, Nat.add_assoc]
+  obtain ⟨k0, krest, hk⟩ : ∃ k0 krest, key ++ (ws2 ++ renderItems is) = k0 :: krest := by
+    cases key with
+    | nil => exact absurd rfl hkne
+    | cons a b => exact ⟨a, _, rfl⟩
+  have hkempty : key.isEmpty = false := by
+    cases key with
+    | nil => exact absurd rfl hkne
+    | cons a b => rfl
+  have hT : dflt.treatPreprocessor = true := rfl
+  have hps := parseStandardLine_items n
+    (tok1 (tok1 s n (0 + ws0.length) ['#'] .preproc) n (0 + ws0.length + 1 + ws1.length) key .preproc)
+    (0 + ws0.length + 1 + ws1.length + key.length) ' ' ws2 is hws2 hitems
+  simp only [Line.render, splitLine, hc, hr, Bool.false_eq_true, ↓reduceIte, hskip0, peek, List.headD_cons,
+    List.isEmpty_cons, Bool.not_false, Bool.and_true, hT, decide_true, parsePreprocessorDirective,
+    List.tail_cons, hskip1, htw, hkempty, hcont, Bool.not_true]
+  rw [hk]
+  simp only [hps]
+  simp [tok1, push, Line.toks, Nat.add_assoc, hc, hr]
 
 theorem splitLine_line (n : Nat) (s : St) (l : Line) (hc : s.cOpen = false) (hr : s.rawOpen = false)
     (hok : l.OK) :
